@@ -36,7 +36,7 @@ def universes():
     return res
 
 
-KIND_PROP = {"txn": "C24", "upd": "C12", "idx": "C15", "lim": "C33", "read": "C11", "truth3": "C23", "cmp": "C23", "arith": "C23", "order": "C20", "agg": "C21", "err": "C22", "part": "C19"}
+KIND_PROP = {"bread": "C30", "txn": "C24", "upd": "C12", "idx": "C15", "lim": "C33", "read": "C11", "truth3": "C23", "cmp": "C23", "arith": "C23", "order": "C20", "agg": "C21", "err": "C22", "part": "C19"}
 
 
 def cypher_sessions(tier, seed, u):
@@ -48,6 +48,7 @@ def cypher_sessions(tier, seed, u):
     ss += cyast.limit_sessions(tier, seed * 29 + 7)
     ss += cyast.update_sessions(tier, seed * 31 + 8)
     ss += cyast.capi_sessions(tier, seed * 37 + 9)
+    ss += cyast.bulk_sessions(tier, seed * 41 + 10)
     return ss
 
 
@@ -76,7 +77,7 @@ def corrupt_for_selftest(lines, dirty_lines=()):
                     continue
             elif k == "agg":
                 rows[0][1] = ["int", {"s": 1, "m": [77]}]
-            elif k in ("read", "idx"):
+            elif k in ("read", "idx", "bread"):
                 rows.append(rows[0])
             elif k == "upd" and e.get("graph", {}).get("nodes"):
                 e["graph"]["nodes"][0]["labels"] = e["graph"]["nodes"][0]["labels"] + ["Zz"]
@@ -405,3 +406,13 @@ def c14(tier, seed, replay):
                    "for disagreement between the outgoing and the incoming view; connected-node DELETE must fail, also for "
                    "relationships created earlier in the same statement",
                    CAPI_NOTE + "; plus all update statements of the C12 sessions")
+
+
+@reg("C30")
+def c30(tier, seed, replay):
+    return cy_prop("C30", tier, seed, replay, ["bread"],
+                   "single-label nodes (the bulk loader's input format); the input is echoed by the driver in tagged-value form and "
+                   "TLC builds the expected graph from it; both databases answer the same generated C11 queries, each judged against "
+                   "the reference on its own dump",
+                   "seeded node / relationship sets (no relationships, parallel relationships, self loops, names shared by labels and "
+                   "types, all scalar kinds, lists, 64-bit integers) loaded by the bulk loader and by transactions")
